@@ -675,6 +675,7 @@ pub(super) fn on_close(k: &mut Kernel, fd: Fd) -> bool {
             // via the user's TcpStream.
             let listener_port = local.port();
             let wildcard = local.ip().is_unspecified();
+            let listener_domain = k.sockets.get(fd).map(|s| s.domain);
             let mut children: Vec<Fd> = k
                 .sockets
                 .get(fd)
@@ -691,7 +692,10 @@ pub(super) fn on_close(k: &mut Kernel, fd: Fd) -> bool {
                 if tcb.state != TcpState::SynReceived {
                     continue;
                 }
-                if bind.local_port != listener_port {
+                // A wildcard listener only owns children of its own
+                // address family: 0.0.0.0:p and [::]:p are distinct
+                // listeners that happen to share a port number.
+                if bind.local_port != listener_port || Some(bind.domain) != listener_domain {
                     continue;
                 }
                 if !wildcard && bind.local_addr != local.ip() {
